@@ -5,6 +5,8 @@
   FakeTransport()                 # records (virtual time, bytes) writes and close() calls
   await turns(k)                  # yield k loop iterations without advancing time
   await until(t)                  # sleep until absolute virtual time t
+  loop.hold(t)                    # called from inside a callback: that callback *blocks* until virtual time t (the clock moves on
+                                  # synchronously; no loop iteration, hence no timer and no I/O callback, runs meanwhile)
 
 The library's reader polls every 0.0001 s, so one virtual second costs ~10^4 loop iterations (~0.2 s wall): keep
 heartbeat intervals in scripts at 0.002 .. 0.05 s.
@@ -43,6 +45,13 @@ class VirtualLoop(asyncio.SelectorEventLoop):
             if when > self._vt:
                 self._vt = when
         super()._run_once()
+
+    def hold(self, until):
+        """The running callback blocks the event loop until virtual time `until`: the clock jumps there at once, from inside the
+        callback.  Timers whose deadline passes meanwhile fire late — in the loop iteration after the callback returns, in deadline
+        order — exactly as on a real loop whose only thread was busy."""
+        if until > self._vt:
+            self._vt = until
 
     def run(self, coro):
         asyncio.set_event_loop(self)
